@@ -348,7 +348,7 @@ def _c15():
     b = []
     b.append({"name": "tree_asan", "sources": ["drivers/tree_driver.cpp"], "flags": SAN, "libs": SAN_LINK})
     for m in ("C12", "C13", "C17"):
-        b.append({"name": "hist_asan_" + m, "sources": ["drivers/hist_driver.cpp"], "flags": SAN + ["-DVF_" + m], "libs": SAN_LINK})
+        b.append({"name": "hist_asan_" + m, "sources": ["drivers/hist_driver.cpp"], "flags": SAN + ["-DVF_" + m, "-DVF_C17_LIGHT"], "libs": SAN_LINK})
     b.append({"name": "mem_asan", "sources": ["drivers/mem_driver.cpp"], "flags": SAN, "libs": SAN_LINK})
     for m in ("C09", "C10"):
         b.append({"name": "tsmper_asan_" + m, "sources": ["drivers/tsmper_driver.cpp"], "flags": SAN + ["-fno-access-control", "-DVF_" + m], "libs": SAN_LINK})
@@ -361,20 +361,20 @@ def _c15():
             e["includes_first"] = inc
         b.append(e)
     r = [
-        {"driver": "tree_asan", "args": ["--mode", "C02"], "slices": 64, "slice_subset": 6, "tag": "c02"},
-        {"driver": "tree_asan", "args": ["--mode", "C06"], "slices": 64, "slice_subset": 4, "tag": "c06"},
-        {"driver": "tree_asan", "args": ["--mode", "C16"], "slices": 64, "slice_subset": 3, "tag": "c16"},
-        {"driver": "tree_asan", "args": ["--mode", "C08"], "slices": 64, "slice_subset": 3, "tag": "c08"},
+        {"driver": "tree_asan", "args": ["--mode", "C02"], "slices": 256, "slice_subset": 6, "tag": "c02"},
+        {"driver": "tree_asan", "args": ["--mode", "C06"], "slices": 256, "slice_subset": 4, "tag": "c06"},
+        {"driver": "tree_asan", "args": ["--mode", "C16"], "slices": 256, "slice_subset": 2, "tag": "c16"},
+        {"driver": "tree_asan", "args": ["--mode", "C08"], "slices": 256, "slice_subset": 2, "tag": "c08"},
         {"driver": "hist_asan_C12", "args": ["--mode", "C12"], "slices": 32, "slice_subset": 32, "tag": "r"},
         {"driver": "hist_asan_C13", "args": ["--mode", "C13"], "slices": 32, "slice_subset": 32, "tag": "r"},
-        {"driver": "hist_asan_C17", "args": ["--mode", "C17"], "slices": 32, "slice_subset": 32, "tag": "r"},
-        {"driver": "mem_asan", "args": ["--mode", "C14"], "slices": 32, "slice_subset": 12, "tag": "r"},
-        {"driver": "tsmper_asan_C09", "args": ["--mode", "C09"], "slices": 64, "slice_subset": 6, "tag": "r"},
-        {"driver": "tsmper_asan_C10", "args": ["--mode", "C10"], "slices": 64, "slice_subset": 16, "tag": "r"},
-        {"driver": "index_asan", "args": ["--mode", "C11"], "slices": 32, "slice_subset": 16, "tag": "r"},
+        {"driver": "hist_asan_C17", "args": ["--mode", "C17"], "slices": 1, "slice_subset": 1, "tag": "r"},
+        {"driver": "mem_asan", "args": ["--mode", "C14"], "slices": 32, "slice_subset": 11, "tag": "r"},
+        {"driver": "tsmper_asan_C09", "args": ["--mode", "C09"], "slices": 64, "slice_subset": 2, "tag": "r"},
+        {"driver": "tsmper_asan_C10", "args": ["--mode", "C10"], "slices": 64, "slice_subset": 8, "tag": "r"},
+        {"driver": "index_asan", "args": ["--mode", "C11"], "slices": 32, "slice_subset": 8, "tag": "r"},
     ]
     for tag in ("omp", "omptsm", "specx", "starpu"):
-        r.append({"driver": "sched_asan_" + tag, "args": ["--mode", "C15"], "slices": 48, "slice_subset": 48, "tag": "r"})
+        r.append({"driver": "sched_asan_" + tag, "args": ["--mode", "C15"], "slices": 48, "slice_subset": 48, "tag": "r", "light": True})
     return b, r
 
 
@@ -398,7 +398,7 @@ CHECKS["C15"] = {
     "level": "exploration",
     "replayable": False,
     "only_keys": "(crash|leak|hang):.*",
-    "env": {"ASAN_OPTIONS": "detect_stack_use_after_return=1:detect_leaks=1:abort_on_error=1:allocator_may_return_null=1",
+    "env": {"VF_SCHED_LIGHT": "1", "ASAN_OPTIONS": "detect_stack_use_after_return=1:detect_leaks=1:abort_on_error=1:allocator_may_return_null=1",
             "UBSAN_OPTIONS": "print_stacktrace=1:halt_on_error=1"},
     "rule": "the drivers of C01/C02/C06/C08/C16 (tree), C12/C13/C17 (histories), C14 (memory blocks and views), C09/C10 (target/source, "
             "periodic), C11 (index algebra) and the schedule explorer for the OpenMP, OpenMP target/source, Specx and StarPU executors "
